@@ -83,8 +83,8 @@ def extra(ctx, res):
         cfg = g2.config()
         if not isinstance(cfg.get('allow_unknown', False), bool):
             cfg['allow_unknown'] = True
-        sub_doc = g2.doc_for(sub_schema, p_present=0.8)
-        if isinstance(sub_doc, dict) and rng.random() < 0.7:
+        sub_doc = g2.doc_for(sub_schema, p_present=0.8) if rng.random() > 0.15 else {}      # the empty sub-document too
+        if isinstance(sub_doc, dict) and sub_doc and rng.random() < 0.7:
             sub_doc['zz_unknown'] = rng.choice([1, 'x', None])
         doc = {'f': sub_doc, 'g': 1}
         upd = rng.random() < 0.3
